@@ -235,11 +235,82 @@ BOUNDED = [
 PROPERTIES = {
     'C05': dict(
         level='other',
-        explanation=('Proved: get_shape (and _shape under C06). Bounded: fitting of every value shape into every destination shape (m,n <= 4) '
-                     'through five routes, and element-wise lifting of 14 operators / functions over all broadcastable shape combinations and '
-                     'argument counts 1..40, against the scalar rule applied per position.'),
-        assumptions=['numpy slicing / broadcast assignment is the mechanism: bounded only'],
-        not_proved=['fit and lift contracts: bounded stage only (numpy)'],
+        explanation=('Proved: fitting - Array.reshape on the real body for 8 source shapes x 9 destination shapes (68 pairs; numpy executed as the '
+                     'container, all element values): a scalar fills, a single row / column repeats along the other dimension, surplus is dropped, '
+                     'unreached cells hold #N/A; get_shape (and _shape under C06). Bounded: fitting of every value shape into every destination '
+                     'shape (m,n <= 4) through five routes, and element-wise lifting of 14 operators / functions over all broadcastable shape '
+                     'combinations and argument counts 1..40, against the scalar rule applied per position.'),
+        assumptions=['numpy slicing / broadcast assignment / resize behave as in the installed numpy (they are executed, not modelled)'],
+        not_proved=['lifting through np.vectorize and the >= 32-argument path; Ranges.set_value / _reshape_array_as_excel routes: bounded stage only',
+                    'pairs of equal element count and different shape are the known finding KF-C05-1 (no contract is generated for them)'],
         bounded_rule='(route, value shape, destination shape) and (function, argument shapes, seed) cases',
     ),
 }
+
+
+# ====================================================================================
+# proved: fitting a result into a destination shape (Array.reshape on the real body; numpy is the container, run
+# natively, the elements are opaque cell values).  One contract per (source shape, destination shape): for ALL element
+# values the destination holds, position by position, what the statement prescribes.  Pairs whose element counts are equal
+# but whose shapes differ are the known finding KF-C05-1 (numpy's reshape re-flows them) and are left to the bounded stage.
+from pyvc.contract import TypeGen, OpaqueT, ConstT
+from pyvc.spec import same_object
+from formulas.tokens.operand import NA as _NA
+
+FIT_SRC = [(1, 1), (1, 2), (1, 3), (2, 1), (3, 1), (2, 2), (2, 3), (3, 2)]
+FIT_DST = [(1, 1), (1, 2), (2, 1), (2, 2), (1, 3), (3, 1), (3, 3), (2, 4), (4, 2)]
+
+
+class _ArrayT(TypeGen):
+    """A formulas Array (ndarray subclass) of the given shape holding opaque cell values."""
+
+    def __init__(self, shape):
+        self.shape = shape
+
+    def make(self, ctx, name):
+        import numpy as np
+        from formulas.functions import Array
+        m, n = self.shape
+        out = np.empty((m, n), object)
+        for i in range(m):
+            for j in range(n):
+                out[i, j] = OpaqueT().make(ctx, '%s.%d.%d' % (name, i, j))
+        return out.view(Array)
+
+
+def lemma_fit(value, shape):
+    from formulas.functions import Array
+    return Array.reshape(value, shape)
+
+
+def _fit_contract(src, dst):
+    c = Contract(lambda: lemma_fit, dict(value=_ArrayT(src), shape=ConstT(dst)), 'C05',
+                 name='Array.reshape[%dx%d into %dx%d]' % (src + dst), use=[])
+    CONTRACTS.append(c)
+
+    @c.ensures('scalar-fills-a-row-or-column-repeats-surplus-is-dropped-the-rest-is-NA', 'P')
+    def _(value, shape, result):
+        if result.shape != tuple(shape):
+            return False
+        ok = True
+        for i in range(shape[0]):
+            for j in range(shape[1]):
+                ii = 0 if value.shape[0] == 1 else i
+                jj = 0 if value.shape[1] == 1 else j
+                if ii < value.shape[0] and jj < value.shape[1]:
+                    ok = ok and same_object(result[i, j], value[ii, jj])
+                else:
+                    ok = ok and (result[i, j] is _NA)
+        return ok
+
+    @c.canary('canary:nothing-but-NA')
+    def _(value, shape, result):
+        return all(result[i, j] is _NA for i in range(shape[0]) for j in range(shape[1]))
+    return c
+
+
+for _s in FIT_SRC:
+    for _d in FIT_DST:
+        if _s[0] * _s[1] == _d[0] * _d[1] and _s != _d:
+            continue                                  # KF-C05-1: equal counts, different shapes
+        _fit_contract(_s, _d)
